@@ -51,6 +51,8 @@ type resSpec struct {
 	Method     string `json:"method,omitempty"`
 	LabelSel   vs.M   `json:"labelSelector,omitempty"`
 	AnnSel     vs.M   `json:"annotationSelector,omitempty"` // in LabelSelector form (matchLabels = matchAnnotations)
+	// resources[].ignoreStatusChanges
+	IgnoreStatusChanges bool `json:"ignoreStatusChanges,omitempty"`
 }
 
 func (c resSpec) group() string   { g, _ := common.ParseAPIVersion(c.APIVersion); return g }
@@ -119,6 +121,10 @@ func (cfg dcfg) controller(hookURL func(string) *string) *v1alpha1.DecoratorCont
 			ls := &metav1.LabelSelector{}
 			_ = runtime.DefaultUnstructuredConverter.FromUnstructured(r.LabelSel, ls)
 			rule.LabelSelector = ls
+		}
+		if r.IgnoreStatusChanges {
+			t := true
+			rule.IgnoreStatusChanges = &t
 		}
 		if r.AnnSel != nil {
 			ls := &metav1.LabelSelector{}
